@@ -141,6 +141,7 @@ package processor
 //@   ensures [reject-bad-signature] !old(len(m.Hash) == 32 && len(m.Signature) == 65 && ecrec_ok(from32(m.Hash), from65(m.Signature))) ==> untouched(p)
 //@   ensures [reject-address-mismatch] old(len(m.Hash) == 32 && len(m.Signature) == 65 && ecrec_ok(from32(m.Hash), from65(m.Signature)) && vaa.pk2addr(ecrec(from32(m.Hash), from65(m.Signature))) != b2a(m.Addr)) ==> untouched(p)
 //@   ensures [reject-no-set] old(gsFor(p, m)) == nil ==> untouched(p)
+//@   at [observationsReceivedByGuardianAddressTotal.WithLabelValues(their_addr.Hex()).Inc()]: assert [past-the-membership-check] gs != nil && gs == old(gsFor(p, m)) && their_addr == old(b2a(m.Addr)) && (exists n in 0..len(gs.Keys) :: gs.Keys[n] == their_addr)
 //@   ensures [reject-non-member] old(gsFor(p, m) != nil && !(exists n in 0..len(gsFor(p, m).Keys) :: gsFor(p, m).Keys[n] == b2a(m.Addr))) ==> untouched(p)
 //@   ensures [entry-on-accept] old(accepted(p, m)) ==> indom(p.state.vaaSignatures, hexs(m.Hash))
 //@   ensures [recorded-on-accept] old(accepted(p, m)) ==> indom(entryOf(p, m).signatures, b2a(m.Addr))
